@@ -7,7 +7,9 @@ AREA = "c04"
 LEAN_PROPS = "Litep2pVerif.Props.C04"
 THEOREMS = ["no_oob", "alloc_bound", "stream_roundtrip", "oversize_error", "malformed_len_error",
             "oversize_refused", "sink_stream", "flush_complete", "send_framed_complete",
-            "sink_eq_send_framed", "flush_delivers"]
+            "sink_eq_send_framed", "flush_delivers",
+            "tokio_uvi_roundtrip", "tokio_uvi_prefix_need_more", "tokio_uvi_max_rule", "tokio_uvi_alloc_bound",
+            "tokio_identity_roundtrip"]
 CONSTS = ["BACKPRESSURE_BOUNDARY", "SUBSTREAM_SIZE_VEC_LEN", "SUBSTREAM_INITIAL_READ_BUFFER"]
 _SUB = "src/substream/mod.rs"
 CONST_TABLE = [
@@ -25,7 +27,11 @@ MANIFEST = {
             "list and fragmentation, with Pending anywhere), oversize_error / malformed_len_error / oversize_refused, sink_stream "
             "(bytes handed to the carrier followed by the bytes still queued are the concatenated frames of the accepted "
             "messages, for every history and every flow-control script), flush_complete, send_framed_complete, "
-            "sink_eq_send_framed, flush_delivers (end to end). Tie: the real Substream on both ends of an in-memory yamux "
+            "sink_eq_send_framed, flush_delivers (end to end); and about the tokio_util codecs of src/codec/ (UnsignedVarint over "
+            "unsigned-varint's UviBytes, Identity): tokio_uvi_roundtrip (decode (encode x) = x, rest preserved), "
+            "tokio_uvi_prefix_need_more (every proper prefix of a frame answers None, then the remainder yields the item), "
+            "tokio_uvi_max_rule, tokio_uvi_alloc_bound (reserve requests and frames never exceed the declared maximum, in every "
+            "reachable state), tokio_identity_roundtrip. Tie: the real Substream on both ends of an in-memory yamux "
             "connection (256 KiB window, messages up to 1 MiB, writer polled only by writer operations) against the model in "
             "checker mode, plus a property-level oracle.",
     "note": "Trusted: Lean kernel; axioms propext/Classical.choice/Quot.sound; the hand-written models and their tie (sampled "
@@ -41,15 +47,26 @@ RULE = ("seeded cases: codec in Identity{1,10,1023,1024,1025,4096} / UnsignedVar
         "send_framed (background future), interleaved with reader polls, bursts of flushes without reads (flow-control stall), "
         "writer_stop after a completed flush, raw malformed/oversized/over-long length prefixes, polling after errors; run on "
         "the real Substream pair over in-memory yamux and on the Lean model (checker mode: the model must allow every "
-        "observation given the number of bytes the carrier accepted). non-trivial = at least one frame received and at least one "
+        "observation given the number of bytes the carrier accepted). `tu` cases: the real codec::UnsignedVarint (new / "
+        "with_max_size, max none/0/1/10/127/128/300/70000) and codec::Identity (1..1024) as tokio_util Encoder/Decoder: streams of "
+        "valid frames at the size boundaries, over-long / non-minimal / oversized / huge announced prefixes, fed in random "
+        "chunks and (one stream per run) cut at every offset; item lists through Encoder::encode; encode-then-decode with a "
+        "fresh codec at EVERY split point of the produced bytes (rt); the associated functions UnsignedVarint::encode/decode "
+        "and Identity::encode; peak heap per decode. non-trivial = at least one frame received and at least one "
         "of: stall (pending/notready), refusal, receiver error; distinct = distinct (ops, observations) transcripts by SHA-256")
 TRUSTED_BASE = ["Lean 4.33 kernel", "axioms: propext, Classical.choice, Quot.sound only",
                 "hand-written models Model/Substream/{Codec,Sink}.lean tied to substream/mod.rs by this correspondence run",
                 "adapter /repo/src/verif/c04.rs (quiescence detection by byte counters), harness, verif.py, checks/c04.py",
                 "yamux 0.13 + tokio duplex as the carrier: reliable, FIFO, accepts >= 1 byte of a non-empty buffer or returns Pending",
                 "unsigned-varint 0.8 encode!/decode! loops transcribed by hand (u64 `|`/`<<` as addition mod 2^64)",
-                "usize = u64 (64-bit target)"]
-ASSUMPTIONS = ["the carrier never returns Ok(0) for a non-empty write and delivers accepted bytes in order",
+                "usize = u64 (64-bit target)",
+                "hand-written model Model/Substream/TokioCodec.lean of unsigned-varint 0.8's UviBytes::{deserialise, serialise} "
+                "and of codec::Identity, tied by the `tu` ops of this run; bytes::BytesMut (split_to/reserve/advance) is a byte "
+                "list, its growth policy is outside the model (the oracle allows twice the declared maximum)"]
+ASSUMPTIONS = ["src/codec/{unsigned_varint,identity}.rs have no caller in the default-feature build (QUIC/WebRTC substreams and "
+               "tests only); they are public API and are driven directly. Identity::new(0) panics by contract (assert!) and is "
+               "outside the quantifier; UnsignedVarint::encode asserts len <= u32::MAX (not driven)",
+               "the carrier never returns Ok(0) for a non-empty write and delivers accepted bytes in order",
                "Identity(0) is outside the quantifier (a zero-length frame has no wire representation)",
                "UnsignedVarint(None): a peer can make the receiver allocate any announced size (no configured limit to check); "
                "the generator keeps announced sizes below 4 MiB there",
